@@ -177,6 +177,23 @@ func ruleAZScope(p *Prog, r *Reporter) {
 			}
 		}
 	}
+	// state carried from one block's evaluation to the next: a map that lives across iterations of the block loop
+	// and is written inside it (a memo of check results, of converted facts, ...)
+	for b := range c.blocks.body {
+		for _, in := range b.Instrs {
+			mu, ok := in.(*ssa.MapUpdate)
+			if !ok {
+				continue
+			}
+			mk, isI := unwrap(mu.Map).(ssa.Instruction)
+			if isI && mk.Parent() == c.fn && c.blocks.body[mk.Block()] {
+				if _, isMake := unwrap(mu.Map).(*ssa.MakeMap); isMake {
+					continue // created in this iteration
+				}
+			}
+			r.Bad(p.instrPos(mu), name, "map carried across blocks "+shortD(mu.Map), "a map that outlives one block's iteration is written while a block is evaluated: what one block's evaluation records (a check found to hold, a converted fact) is seen by the evaluation of later blocks")
+		}
+	}
 	// stores into the authorizer
 	for _, fs := range fieldStoresVia(c.fn, c.recv) {
 		if !c.tainted(fs.st.Val) {
